@@ -8,3 +8,6 @@ import Hyeong.Props.C14
 #print axioms HyE.C14.cat_all_levels
 #print axioms HyE.C14.eof_iff_nan
 #print axioms HyE.C14.input_lines
+#print axioms HyE.C14.utf8_roundtrip
+#print axioms HyE.C14.utf8_input_is_its_text
+#print axioms HyE.C14.cat_bytes
